@@ -103,16 +103,24 @@ let diag_line l =
       (int_of_nat d.d_head.c_pos.p_file) (int_of_nat d.d_head.c_pos.p_line) (List.length d.d_similar)
       (String.concat "|" (List.map place (shown_places d)))) ds))
 
+(* scope case: include-flag TAB exclude-flag TAB package path *)
+let str_to_nats s = List.init (String.length s) (fun i -> nat_of_int (Char.code s.[i]))
+let scope_line l =
+  match String.split_on_char '\t' l with
+  | [inc; exc; path] -> print_endline (if in_scope_flags (str_to_nats inc) (str_to_nats exc) (str_to_nats path) then "1" else "0")
+  | _ -> print_endline "?"
+
 let () =
   let mode = if Array.length Sys.argv > 1 then Sys.argv.(1) else "engine" in
   try
     while true do
       let l = input_line stdin in
-      if String.trim l <> "" then
+      if l <> "" then
         (match mode with
          | "engine" -> engine_line false l
          | "enginespec" -> engine_line true l
          | "diag" -> diag_line l
+         | "scope" -> scope_line l
          | _ -> failwith "unknown mode")
     done
   with End_of_file -> ()
